@@ -313,6 +313,15 @@ class Proof:
         self.goal = z3.substitute(self.goal, (old, new))
         return self
 
+    def intro(self):
+        """Goal A ==> B: assume A, prove B (deduction rule).  Returns A."""
+        g = self.goal
+        if not T.is_app(g, z3.Z3_OP_IMPLIES):
+            raise ValueError('intro(): goal is not an implication')
+        self.assumptions.append(g.arg(0))
+        self.goal = g.arg(1)
+        return g.arg(0)
+
     def cases(self, label, conds):
         """conds: list of (name, Bool). Emits exhaustiveness; returns the sub-proofs."""
         self._emit('cases.' + label + '.exhaustive', T.OR(*[c for _, c in conds]), 'hint')
